@@ -38,7 +38,8 @@ def register(reg, repo):
     reg.add(C(G + "_AsyncGenerator.send", modifies="*",
               calls={"self._send_inner.asynq": "env.send.asynq", "self.last_task.is_computed": "futures.FutureBase.is_computed"},
               types={"first_value": None},
-              labels={"noattrcheck": True, ("xpost", 0): "early-advance-raises-RuntimeError-without-stepping",
+              labels={"noattrcheck": True, "site_assumes": {"ConstFuture": ["first_value.value is not _none"]},
+                      ("xpost", 0): "early-advance-raises-RuntimeError-without-stepping",
                       ("xpost", 1): "exhausted-keeps-raising-StopIteration"},
               requires=["self.last_task is None or isinstance(self.last_task, FutureBase)"],
               post=["not (" + EARLY + ")", "not old(self.is_stopped)",
